@@ -16,7 +16,9 @@ META = dict(
                "message and against the memory; finished runs leave the active set in the same local step. The pinned "
                "commit's remote path is refuted by machine-checked witnesses (D1 stale update, D2 merged message). "
                "Checked after every step (step invariants). Tie: model vs real decider on mixed sequences with stale, "
-               "duplicated and merged messages; oracle tracks, per instance, every run id it has seen finish.",
+               "duplicated and merged messages; oracle tracks, per instance, every run id it has seen finish - at decider "
+               "level and on real engines replicating through the real BoboDistributedTCP under link faults (sends "
+               "that fail after delivery, refused connections, backlog retries merged with new changes).",
     level_note="Trusted: Coq kernel; harness mirrors. Stated with finished-run memory enabled and not overflowing "
                "(generator keeps the number of finished runs below max_cache). The action half of the property "
                "(no second action, no action for a remote completion) is carried by the engine-level oracle below and "
@@ -70,6 +72,8 @@ def work(case):
         o, lists = SD.apply_op(dec, rec, op)
         out += o
         if lists is None:
+            if op[0] == "remote" and fail is None:
+                fail = SD.remote_raise_failure(dec, k)
             break
         comp, halt, upd = lists
         for r in comp:
@@ -134,8 +138,109 @@ def engine_half(ctx, res):
                                      detail=None))
 
 
+def tcp_case(sc):
+    """real engines replicating through the real BoboDistributedTCP with link faults (a send that fails after the
+    bytes were delivered, refused connections, backlog retries, merged backlog + new changes).  Per instance and run id,
+    after every step: at most one completed notification (hence one complex event), never active again once seen
+    finished, and the action runs only where the run completed locally, once."""
+    import sim_cluster as SC
+    from bobocep.cep.engine.decider.pubsub import BoboDeciderSubscriber
+    cfg, n = sc["cfg"], sc["n"]
+    ed = dict(cfg=cfg, tr=0, td=0, tp=0, tf=0, early=True, local_only=True, datagen=[], act=[(1, (1, True, 5))])
+    cl = SC.TcpCluster(ed, n)
+    seen = [dict(comp={}, fin=set(), local_comp=0) for _ in range(n)]
+
+    def spy(k):
+        class Spy(BoboDeciderSubscriber):
+            def on_decider_update(self, completed, halted, updated, local):
+                for r in completed:
+                    seen[k]["comp"][r.run_id] = seen[k]["comp"].get(r.run_id, 0) + 1
+                    seen[k]["fin"].add(r.run_id)
+                    if local:
+                        seen[k]["local_comp"] += 1
+                for r in halted:
+                    seen[k]["fin"].add(r.run_id)
+        return Spy()
+    for k in range(n):
+        cl.net.nodes[k].engine.decider.subscribe(spy(k))
+    fail = None
+
+    def check(i):
+        for k in range(n):
+            twice = sorted(r for r, c in seen[k]["comp"].items() if c > 1)
+            if twice:
+                return dict(signature="run-completed-twice-through-tcp", step=i,
+                            what="instance %d was notified twice of the completion of run %s (two complex events)" % (k, twice[0]), detail=None)
+            back = sorted(r.run_id for r in cl.nodes[k][0].decider.all_runs() if r.run_id in seen[k]["fin"])
+            if back:
+                return dict(signature="finished-run-active-again-through-tcp", step=i,
+                            what="run %s is active on instance %d after that instance saw it finish" % (back[0], k), detail=None)
+            ncx, nex = len(cl.nodes[k][2]["complex"]), len(cl.nodes[k][2]["execs"])
+            if ncx != sum(seen[k]["comp"].values()) or nex != seen[k]["local_comp"]:
+                return dict(signature="complex-events-or-actions-not-one-per-completion-through-tcp", step=i,
+                            what="instance %d: %d completed notifications (%d local) but %d complex events and %d action executions"
+                                 % (k, sum(seen[k]["comp"].values()), seen[k]["local_comp"], ncx, nex), detail=None)
+        return None
+    steps = list(sc["steps"]) + [("heal",), ("wait", 6), ("wait", 6), ("wait", 6)]   # backlogs are retried every 5 s
+    for i, st in enumerate(steps):
+        if st[0] == "in":
+            cl.input(st[1], st[2])
+        elif st[0] == "link":
+            cl.link(st[1], st[2], st[3])
+        elif st[0] == "heal":
+            cl.heal()
+        else:
+            cl.wait(st[1])
+        fail = check(i)
+        if fail:
+            break
+    faults = sum(1 for m in cl.net.wire if m.get("kind") == "refused" or (m.get("kind") == "msg" and not m.get("sender_ok", True)))
+    remote = any(seen[k]["comp"] and sum(seen[k]["comp"].values()) > seen[k]["local_comp"] for k in range(n))
+    return fail, faults > 0 and remote
+
+
+def gen_tcp(ctx):
+    rng = ctx.rng
+    out = []
+    shapes = [s for s in G.shapes(3) if len(s) >= 2 and all(k in ("R", "S") for k in s)]
+    for k in range(150 if ctx.quick else 2500):
+        n = rng.choice([2, 2, 3])
+        shape = rng.choice(shapes)
+        p = G.pattern(1, G.assign(shape, 0, "distinct"))
+        cfg = dict(phen=[(1, [p])], maxcache=50, idbase=1000)
+        steps = []
+        for _ in range(rng.randint(4, 9)):
+            r = rng.random()
+            if r < 0.3:
+                i, j = rng.sample(range(n), 2)
+                steps.append(("link", i, j, rng.choice(["fail", "fail", "down"])))
+            elif r < 0.4:
+                steps.append(("heal",))
+            elif r < 0.5:
+                steps.append(("wait", rng.choice([1, 6, 6, 11])))
+            steps.append(("in", rng.randrange(n), rng.randint(1, len(shape))))
+        out.append(dict(cfg=cfg, n=n, steps=steps))
+    # the plain sequence: a completion whose send fails after delivery, retried twice
+    ab = dict(phen=[(1, [G.pattern(1, G.assign(["R", "R"], 0, "distinct"))])], maxcache=50, idbase=1000)
+    for st in ("fail", "down"):
+        out.append(dict(cfg=ab, n=2, steps=[("in", 0, 1), ("link", 0, 1, st), ("in", 0, 2), ("wait", 6), ("wait", 6), ("heal",), ("wait", 6)]))
+        out.append(dict(cfg=ab, n=3, steps=[("in", 0, 1), ("link", 0, 1, st), ("link", 0, 2, "fail"), ("in", 0, 2), ("in", 1, 1), ("wait", 6),
+                                            ("in", 2, 2), ("wait", 6), ("heal",), ("wait", 6)]))
+    return out
+
+
+def tcp_half(ctx, res):
+    scs = gen_tcp(ctx)
+    for sc, (fail, nontrivial) in zip(scs, pmap(tcp_case, scs, chunksize=4)):
+        res.note_case(("tcp", repr(sc)), nontrivial)
+        res.count("tcp_scenarios_with_link_faults" if nontrivial else "tcp_scenarios_without_effective_fault")
+        if fail:
+            res.failures.append(dict(signature=fail["signature"], what=fail["what"], case=dict(tcp=sc), detail=None))
+
+
 def run(ctx, res):
     engine_half(ctx, res)
+    tcp_half(ctx, res)
     cases = gen_cases(ctx)
     results = pmap(work, cases)
     coq_cases = []
@@ -160,6 +265,14 @@ def replay(obj):
     if not case:
         print(obj)
         return 0
+    if "tcp" in case:
+        sc = case["tcp"]
+        sc["cfg"], _ = pC12.norm_case(dict(cfg=sc["cfg"], ops=[]))
+        sc["steps"] = [tuple(x) for x in sc["steps"]]
+        fail, _ = tcp_case(sc)
+        print("scenario (real engines + real BoboDistributedTCP, link faults):", sc["steps"])
+        print("oracle  :", fail or "every finished run was finished once, everywhere")
+        return 1 if fail else 0
     cfg, ops = pC12.norm_case(case)
     out, _, fail = work((cfg, ops))
     model, _ = common.coq_eval("C05r", SD.IMPORTS, "run_decider %s" % SD.case_coq(cfg, ops))
